@@ -1744,6 +1744,12 @@ impl SctpInner {
         let _inbound_streams = buf.get_u16();
         let initial_tsn = buf.get_u32();
 
+        // RFC 4960 §3.3.2: an Initiate Tag of 0 is invalid. Accepting it would leave the
+        // association without a usable peer tag (no HEARTBEAT / HEARTBEAT ACK can be sent).
+        if initiate_tag == 0 {
+            return Ok(());
+        }
+
         // A retransmitted, duplicated or late INIT of the association we already
         // answered must not disturb it (RFC 4960 §5.2.2): once established it is
         // ignored; before that it is answered with the same tag / initial TSN, so
